@@ -76,6 +76,10 @@ pub struct RawData {
 #[derive(Clone, Debug, Default)]
 pub struct RawView {
     pub func_imports: Vec<(String, String)>,
+    /// declared type index of each imported function, parallel to `func_imports`
+    pub func_import_types: Vec<u32>,
+    /// types 0 and 1 exist and are both `(func)` (no params, no results)
+    pub twin_types01: bool,
     pub global_imports: Vec<(String, String)>,
     /// (content type, mutable) of each imported global, parallel to `global_imports`
     pub global_import_types: Vec<(String, bool)>,
@@ -151,12 +155,22 @@ pub fn decode(bytes: &[u8]) -> Result<RawView, String> {
             Payload::Version { .. } => depth += 1,
             Payload::End(_) => depth -= 1,
             _ if depth != 1 => {}
+            Payload::TypeSection(r) => {
+                let mut flat: Vec<bool> = vec![];
+                for rg in r {
+                    for st in rg.map_err(|e| e.to_string())?.into_types() {
+                        flat.push(matches!(&st.composite_type.inner, wasmparser::CompositeInnerType::Func(f) if f.params().is_empty() && f.results().is_empty()));
+                    }
+                }
+                v.twin_types01 = flat.len() >= 2 && flat[0] && flat[1];
+            }
             Payload::ImportSection(r) => {
                 for i in r {
                     let i = i.map_err(|e| e.to_string())?;
                     let key = (i.module.to_string(), i.name.to_string());
                     let k = match i.ty {
-                        TypeRef::Func(_) => {
+                        TypeRef::Func(ty_idx) => {
+                            v.func_import_types.push(ty_idx);
                             v.func_imports.push(key.clone());
                             "func"
                         }
